@@ -1243,11 +1243,13 @@ func (sdb *DbSqlite) userCheck(email, password string) (data.Nodes, error) {
 			return false, err
 		}
 
+	nextEdge:
 		for _, e := range edges {
-			// make sure edge is not tombstone
+			// a deleted edge is not a path, but the node may be attached
+			// somewhere else, so keep looking at the other edges
 			for _, p := range e.Points {
 				if p.Type == data.PointTypeTombstone && p.Value != 0 {
-					return false, nil
+					continue nextEdge
 				}
 			}
 
